@@ -951,6 +951,24 @@ def run(ctx):
                 ctx.violation({"lm": pieces[0], "steps": [["merge", pieces[1:], True]], "whole": whole},
                               _content_diff(py_content(whole), py_content(after)), "content of the whole", cls=None,
                               what="merge of the pieces of a data set is not the data set")
+    # narrow index types: connectivity stored as uint8 / int8 / int16 / uint16 / int32 in a mesh that has MORE points than
+    # the type can count (the surplus points are unconnected and come last, so every index inside a cell still fits)
+    for i in range(ctx.scale(6, 120)):
+        cdt = ["u8", "i8", "u8", "i16", "u16", "i32"][i % 6]
+        lm, tags = gen_mesh(rng, max_cells_per_dir=2, dims=(2, 3), allow_duplicates=False, allow_orphans=False)
+        cap = {"u8": 255, "i8": 127}.get(cdt)
+        if cap is not None and len(lm["points"]) > cap // 2:
+            continue
+        span = max([abs(x) for q in lm["points"] for x in q] + [1.0])
+        extra = (cap + 20 - len(lm["points"])) if cap is not None else rng.randint(3, 30)
+        for j in range(extra):
+            lm["points"].append([span * (2.0 + 0.37 * j + 0.011 * d) for d in range(lm["dim"])])
+        for f in lm["pf"]:
+            rs = _rowsize(f["tail"])
+            f["v"] = f["v"] + [(1000 + j if f["dt"][0] in "iu" else 1000.5 + j) for j in range(extra * rs)]
+        lm["conn_dtype"] = cdt
+        for steps in ([("sort_points",)], [("sort_points",), ("sort_cells",)], [("sort",)], [("strip",)]):
+            check_case(ctx, {"lm": lm, "steps": steps}, ["narrow-index-" + cdt, "narrow-" + steps[0][0]])
     # one deterministic F3-class case per run (recorded finding, DESIGN §8)
     quad = {"dim": 2, "points": [[0.0, 0.0], [1.0, 0.0], [1.0, 1.0], [0.0, 1.0]], "cells": [["QUAD", [[0, 1, 2, 3]]]],
             "pf": [], "cf": []}
